@@ -1,13 +1,31 @@
 """Per-property configuration of ./check: which harness jobs tie the property's models to the code.
-job keys: test (Go test function), comp (first token of its log lines), env, quick/thorough (env overrides),
-seeds {tier: number of seeds}."""
+job keys: test (Go test function), comp (first token of its log lines), mode (scenario jobs: 3rd token of the
+`new` line), scenario (replay = the `new` line only), env, quick/thorough (env overrides), seeds {tier: n}."""
 
 RQ = {'test': 'TestVerifRQ', 'comp': 'rq', 'quick': {'VERIF_N': 150, 'VERIF_OPS': 150},
       'thorough': {'VERIF_N': 1500, 'VERIF_OPS': 300}, 'seeds': {'quick': 1, 'thorough': 8}}
 GENF = {'test': 'TestVerifGenFuncs', 'comp': 'gen', 'quick': {'VERIF_N': 1500},
         'thorough': {'VERIF_N': 200000, 'VERIF_SNA16_ALL': 1}, 'seeds': {'quick': 1, 'thorough': 2}}
 
+
+def e2e(mode, test, nq=60, nt=1500):
+    return {'test': test, 'comp': 'e2e', 'mode': mode, 'scenario': True, 'quick': {'VERIF_N': nq},
+            'thorough': {'VERIF_N': nt}, 'seeds': {'quick': 1, 'thorough': 8}}
+
+
+E2E_T = e2e('transfer', 'TestVerifE2ETransfer')
+E2E_PR = e2e('pr', 'TestVerifE2EPR')
+E2E_SD = e2e('shutdown', 'TestVerifE2EShutdown')
+
+E2E_RULE = ('one case = one seeded scenario (options x initial TSNs x streams/policies x message sizes x per-packet fault schedule x heal time) run on a real '
+            'association pair under testing/synctest virtual time; distinct by SHA-1 of its full API+wire log; non-trivial = at least 3 distinct event kinds and 5 events')
+
 PROPS = {
-    'C05': {'jobs': [RQ], 'assumptions': []},
-    'C16': {'jobs': [GENF, RQ], 'assumptions': []},
+    'C05': {'jobs': [RQ]},
+    'C16': {'jobs': [GENF, RQ]},
+    'C01': {'jobs': [E2E_T], 'rule': E2E_RULE},
+    'C02': {'jobs': [E2E_T], 'rule': E2E_RULE},
+    'C06': {'jobs': [E2E_PR, E2E_T], 'rule': E2E_RULE},
+    'C07': {'jobs': [E2E_PR], 'rule': E2E_RULE},
+    'C08': {'jobs': [E2E_SD], 'rule': E2E_RULE},
 }
